@@ -42,6 +42,8 @@ type Hnd struct {
 	Next  *Hnd     // the handler this one wraps (nil for a base handler)
 	Base  *Hnd     // innermost handler (self for a base handler)
 	Chain []string // middleware names, outermost first
+	// arguments the factory that made this layer was invoked with
+	MWMethod, MWPattern, MWRouter string
 
 	Prog  *Prog        // optional write program (C08)
 	Panic *PanicSpec   // optional fault injection (C16)
@@ -145,7 +147,7 @@ func (m *MW) Middleware(next *Hnd, method, pattern, router string) *Hnd {
 	if e.OnMiddleware != nil {
 		e.OnMiddleware()
 	}
-	out := &Hnd{ID: e.NextID(), Env: e, Next: next}
+	out := &Hnd{ID: e.NextID(), Env: e, Next: next, MWMethod: method, MWPattern: pattern, MWRouter: router}
 	call := MWCall{Name: m.Name, Method: method, Pattern: pattern, Router: router, OutID: out.ID, NextID: -1, NextBase: -1}
 	if next != nil {
 		out.Kind, out.Pattern, out.Node, out.Base = next.Kind, next.Pattern, next.Node, next.Base
